@@ -272,7 +272,7 @@ def euler2d_problem(rnd, nx, ny, flux, recon, bclist, gamma=1.4, prim=None, lx=N
     lx = lx if lx is not None else rnd.choice([1.0, 2.0])
     ly = ly if ly is not None else rnd.choice([1.0, 0.5])
     m = fd.mesh2d.mesh2d(nx, ny, lx, ly)
-    num = fd.xnum.extrapol2d1() if recon[0] == "e1" else fd.xnum.extrapol2dk(recon[1])
+    num = fd.recon2(recon)
     disc = fd.modeldisc.fvm2dcart(model, m, num, bclist=bclist, numflux=flux)
     return model, m, disc
 
@@ -357,7 +357,7 @@ def cons2d_cases(rnd, tier):
         try:
             model0, m, disc0 = euler2d_problem(rnd, nx, ny, flux, recon, bclist, gamma=rnd.choice([1.4, 5.0 / 3.0]))
             model = O.Recording(model0)
-            num = fd.xnum.extrapol2d1() if recon[0] == "e1" else fd.xnum.extrapol2dk(recon[1])
+            num = fd.recon2(recon)
             disc = fd.modeldisc.fvm2dcart(model, m, num, bclist=bclist, numflux=flux)
             prim = prim2d(rnd, nx, ny)
             if recon[0] != "e1":      # unlimited high order: keep the face states admissible
@@ -455,7 +455,7 @@ def _angle(b, f):
 def rhs2d(model_gamma, nx, ny, lx, ly, flux, recon, bclist, prim):
     model = fd.euler.euler2d(gamma=model_gamma)
     m = fd.mesh2d.mesh2d(nx, ny, lx, ly)
-    num = fd.xnum.extrapol2d1() if recon[0] == "e1" else fd.xnum.extrapol2dk(recon[1])
+    num = fd.recon2(recon)
     disc = fd.modeldisc.fvm2dcart(model, m, num, bclist=bclist, numflux=flux)
     f = cons2d(model, m, prim)
     with np.errstate(all="ignore"):
